@@ -191,6 +191,43 @@ def _confirm_crash(ctx, cmd, out, rc, cpu_limit=120):
     return None
 
 
+def _cpu_ticks(pid):
+    """utime+stime of a process and all its threads, in clock ticks (None if it is gone)."""
+    total = 0
+    try:
+        for t in os.listdir("/proc/%d/task" % pid):
+            with open("/proc/%d/task/%s/stat" % (pid, t)) as f:
+                fields = f.read().rsplit(") ", 1)[1].split()
+            total += int(fields[11]) + int(fields[12])
+    except (OSError, IndexError, ValueError):
+        return None
+    return total
+
+
+def _wait_or_blocked(p, window=60, windows=2):
+    """Wait for the process. A process that is alive but whose CPU time does not advance by a single
+    tick over two consecutive 60 s windows is not slow (a loaded machine still gives a runnable
+    process some time in a minute): it is blocked. It is killed and a description returned."""
+    still = 0
+    last = None
+    while True:
+        try:
+            p.wait(timeout=window)
+            return None
+        except subprocess.TimeoutExpired:
+            pass
+        now = _cpu_ticks(p.pid)
+        if now is not None and last is not None and now == last:
+            still += 1
+            if still >= windows:
+                p.kill()
+                p.wait()
+                return "%d consecutive windows of %d s with the CPU time standing at %d ticks" % (windows, window, now)
+        else:
+            still = 0
+        last = now
+
+
 def _confirm_stuck(ctx, cmd, out, case, cpu_limit=120):
     import resource
 
@@ -199,8 +236,19 @@ def _confirm_stuck(ctx, cmd, out, case, cpu_limit=120):
     single = cmd + ["--only-case", str(case), "--threads", "1"]
     if os.path.exists(out):
         os.remove(out)
-    p = subprocess.run(single, stdin=subprocess.DEVNULL, stdout=subprocess.DEVNULL,
-                       stderr=subprocess.DEVNULL, env=ENV, preexec_fn=limit)
+    p = subprocess.Popen(single, stdin=subprocess.DEVNULL, stdout=subprocess.DEVNULL,
+                         stderr=subprocess.DEVNULL, env=ENV, preexec_fn=limit)
+    blocked = _wait_or_blocked(p)
+    if blocked:
+        prop = cmd[1]
+        return {"property": prop, "tier": cmd[3], "seed": int(cmd[5]), "profile": cmd[7],
+                "evaluations": 1, "distinct_nontrivial": 1, "classes": {"nonterminating_case": 1},
+                "samples": [], "floors_missing": [], "inconclusive": {}, "exhaustive": False,
+                "violation_counts": {"%s/no-termination" % prop: 1},
+                "violations": [{"key": "%s/no-termination" % prop, "case": case,
+                                "what": "case %d, run alone, stays alive without consuming any CPU time (%s): blocked for good (normal cost: milliseconds); the rest of the workload was not run" % (case, blocked),
+                                "detail": {"case": case, "cmd": single}}],
+                "wall_s": 0.0, "extra": {}, "_cmd": cmd}
     if p.returncode in (-24, -9, 3):  # SIGXCPU / SIGKILL by the limit / nominated again
         prop = cmd[1]
         return {"property": prop, "tier": cmd[3], "seed": int(cmd[5]), "profile": cmd[7],
@@ -230,6 +278,7 @@ class Result:
         self.parts = []
         self.extra = {}
         self.exhaustive = False
+        self.layer_incomplete = []
 
     def add_lv(self, doc, label=None):
         label = label or doc.get("profile", "?")
@@ -417,6 +466,10 @@ def finish(ctx, prop, result, wall):
                 json.dump(blob, f, indent=1, ensure_ascii=False)
             lines.append("VIOLATION property=%s replay=%s" % (ctx.pid, path))
             lines.append("  key=%s :: %s" % (v["key"], v["what"][:300]))
+    elif result.layer_incomplete:
+        verdict = "inconclusive"
+        rc = 2
+        lines.append("INCONCLUSIVE property=%s reason=%s" % (ctx.pid, " | ".join(result.layer_incomplete).replace("\n", " ")[:400]))
     elif result.floors_missing or result.inconclusive:
         # Nothing refuted, but something the check promises to observe was not observed.
         if result.floors_missing:
